@@ -29,22 +29,58 @@ Definition one_read_section (sk : skeleton) (m : string) (need : list field) : b
   let raw := find_method m sk in
   wf_method raw && match norm raw with ERLock :: _ => true | _ => false end && forallb (fun f => reads f raw) need.
 
-(** [Some b]: Execute has the shape of the machine with [fx_F2 = b]; [None]: it has another shape *)
-Definition exec_shape (sk : skeleton) (xs : list xev) : option bool :=
-  match filter (fun e => negb (is_ret e)) xs with
-  | [XCall h; XGet kg; XCall s; XSet ks; XHdr] =>
-      if one_read_section sk h [FJwk] && one_read_section sk s [FJwk; FKey] && strs_eqb kg [h]
-         && negb (String.eqb h s)
-      then (if strs_eqb ks [s] then Some true else if strs_eqb ks [h] then Some false else None)
-      else None
+Definition xev_eqb (a b : xev) : bool :=
+  match a, b with
+  | XCall x, XCall y | XOther x, XOther y => String.eqb x y
+  | XGet x, XGet y | XSet x, XSet y => strs_eqb x y
+  | XHdr, XHdr | XRet, XRet => true
+  | _, _ => false
+  end.
+
+(** a path without its return statements *)
+Definition rel (p : list xev) : list xev := filter (fun e => negb (is_ret e)) p.
+
+(** the full path of a miss: Hash-call, Get(key of Hash), Sign-call, Set(key from ks), header *)
+Definition full_of (p : list xev) : option (string * string * list string) :=
+  match rel p with
+  | [XCall h; XGet kg; XCall s; XSet ks; XHdr] => if strs_eqb kg [h] then Some (h, s, ks) else None
   | _ => None
   end.
 
-(** the shapes of the tree as it is and of the tree before 186d696, on the pinned lock skeleton *)
-Definition xs_fixed : list xev :=
-  [XCall "Hash"; XGet ["Hash"]; XCall "signWithHash"; XRet; XSet ["signWithHash"]; XHdr; XRet].
-Definition xs_pinned : list xev :=
-  [XCall "Hash"; XGet ["Hash"]; XCall "Sign"; XRet; XSet ["Hash"]; XHdr; XRet].
+Fixpoint find_full (ps : list (list xev)) : option (string * string * list string) :=
+  match ps with
+  | [] => None
+  | p :: r => match full_of p with Some x => Some x | None => find_full r end
+  end.
+
+(** every other path through Execute is that path cut short by a return (an error, a hit: header right after
+    the lookup, no store) *)
+Definition allowed (h s : string) (ks : list string) (p : list xev) : bool :=
+  let H := XCall h in let G := XGet [h] in let S := XCall s in let St := XSet ks in
+  existsb (list_eqb xev_eqb (rel p))
+    [ []; [H]; [H; G]; [H; G; XHdr]; [H; G; S]; [H; G; S; XHdr]; [H; G; S; St]; [H; G; S; St; XHdr] ].
+
+(** [Some b]: Execute has the shape of the machine with [fx_F2 = b]; [None]: it has another shape.
+    [ps] = one event list per path through Execute. *)
+Definition exec_shape (sk : skeleton) (ps : list (list xev)) : option bool :=
+  match find_full ps with
+  | Some (h, s, ks) =>
+      if one_read_section sk h [FJwk] && one_read_section sk s [FJwk; FKey] && negb (String.eqb h s)
+         && forallb (allowed h s ks) ps
+      then (if strs_eqb ks [s] then Some true else if strs_eqb ks [h] then Some false else None)
+      else None
+  | None => None
+  end.
+
+(** the shapes of the tree as it is and of the tree before 186d696 *)
+Definition xs_fixed : list (list xev) :=
+  [ [XRet];
+    [XCall "Hash"; XGet ["Hash"]; XCall "signWithHash"; XRet];
+    [XCall "Hash"; XGet ["Hash"]; XCall "signWithHash"; XSet ["signWithHash"]; XHdr; XRet] ].
+Definition xs_pinned : list (list xev) :=
+  [ [XRet];
+    [XCall "Hash"; XGet ["Hash"]; XCall "Sign"; XRet];
+    [XCall "Hash"; XGet ["Hash"]; XCall "Sign"; XSet ["Hash"]; XHdr; XRet] ].
 
 (** the lock skeleton of jwt_signer.go as of the tree with 186d696 (the driver re-extracts it on every run;
     this copy documents what was read) and, for the shape before that commit, the one of LocksProofs.v *)
@@ -67,11 +103,17 @@ Proof. vm_compute. reflexivity. Qed.
 Example shape_before : exec_shape skeleton_before xs_pinned = Some false.
 Proof. vm_compute. reflexivity. Qed.
 
-(** shapes the machine does not describe: a second lookup; signing in two sections; the key of Set from nowhere *)
+(** shapes the machine does not describe: a second lookup; signing in two sections; the key of Set from
+    nowhere; a goroutine started; a path that stores without having signed; an early return on a hit and a
+    helper for the miss are fine *)
 Example shape_other :
-  exec_shape skeleton_now [XCall "Hash"; XGet ["Hash"]; XCall "Hash"; XGet ["Hash"]; XCall "signWithHash"; XSet ["signWithHash"]; XHdr] = None /\
+  exec_shape skeleton_now [[XCall "Hash"; XGet ["Hash"]; XCall "Hash"; XGet ["Hash"]; XCall "signWithHash"; XSet ["signWithHash"]; XHdr]] = None /\
   exec_shape [("Hash", [ERLock; ERead FJwk; ERUnlock]);
               ("signWithHash", [ERLock; ERead FJwk; ERUnlock; ERLock; ERead FKey; ERUnlock])] xs_fixed = None /\
-  exec_shape skeleton_now [XCall "Hash"; XGet ["Hash"]; XCall "signWithHash"; XSet []; XHdr] = None /\
-  exec_shape skeleton_now (xs_fixed ++ [XOther "go statement"]) = None.
+  exec_shape skeleton_now [[XCall "Hash"; XGet ["Hash"]; XCall "signWithHash"; XSet []; XHdr]] = None /\
+  exec_shape skeleton_now (xs_fixed ++ [[XOther "go statement"]]) = None /\
+  exec_shape skeleton_now (xs_fixed ++ [[XCall "Hash"; XGet ["Hash"]; XSet ["signWithHash"]; XHdr]]) = None /\
+  exec_shape skeleton_now
+    [ [XRet]; [XCall "Hash"; XGet ["Hash"]; XHdr; XRet]; [XCall "Hash"; XGet ["Hash"]; XCall "signWithHash"; XSet ["signWithHash"]; XRet];
+      [XCall "Hash"; XGet ["Hash"]; XCall "signWithHash"; XSet ["signWithHash"]; XHdr; XRet] ] = Some true.
 Proof. vm_compute. repeat split. Qed.
